@@ -219,3 +219,50 @@ class ArrivalAtRunningItems(Monitor):
             if v and (k.rsplit("__t", 1)[0], rec["route"]) in busy and k.rsplit("__t", 1)[0] != a.get("task"):
                 self.stats["arrivals_at_running_items_task"] += 1
                 run.tags.add("arrival_at_running_items_task")
+
+
+ACTIVE = ("running", "requested", "scheduled", "delayed", "pausing", "paused", "pending", "canceling", "resuming", "retrying")
+
+
+class RearrivalAtRunningTask(Monitor):
+    """model-free cause tag for a recorded defect (known_findings.json, F20): a completed task has a satisfied
+    transition into a non-join task whose previous execution ON THE ROUTE THE ARRIVAL IS STAGED ON is still active
+    (or which is already staged there): the engine keys executions by (task, route), so both share one record.
+    Computed from the state before the event, the recorded decision and the route of the staged arrival - not from
+    the failure that follows.  (The ledger computes the same tag from the definition model where one exists; this
+    monitor also serves the workloads that conduct definitions without a model, e.g. the fixture corpus.)"""
+    name = "rearrival"
+
+    def on_init(self, run):
+        self.stats = dict(rearrivals_at_running_task=0)
+
+    def on_call(self, run, ev):
+        if ev["op"] != "done" or ev.get("exc") is not None:
+            return
+        a = ev.get("action") or {}
+        post, pre = ev["post"]["state"], ev["pre"]["state"]
+        idx = post["tasks"].get("%s__r%s" % (a.get("task"), a.get("route")))
+        if idx is None:
+            return
+        rec = post["sequence"][idx]
+        sat = [k for k, v in (rec.get("next") or {}).items() if v]
+        if not sat:
+            return
+        pre_staged = set((s["id"], s["route"]) for s in pre["staged"])
+        for s in post["staged"]:
+            # next keys are <target>__t<k>, the staged entry's back references <completing task>__t<k> -> record index
+            hit = [k for k in sat if k.rsplit("__t", 1)[0] == s["id"]
+                   and (s.get("prev") or {}).get("%s__t%s" % (a.get("task"), k.rsplit("__t", 1)[1])) == idx]
+            if not hit:
+                continue
+            try:
+                if run.c.graph.has_barrier(s["id"]):
+                    continue
+            except Exception:
+                continue
+            key = (s["id"], s["route"])
+            pidx = pre["tasks"].get("%s__r%s" % key)
+            busy = pidx is not None and pre["sequence"][pidx]["status"] in ACTIVE
+            if busy or key in pre_staged:
+                self.stats["rearrivals_at_running_task"] += 1
+                run.tags.add("rearrival_at_running_task")
